@@ -174,6 +174,11 @@ class EngineBase:
         """fresh symbolic value for a declared type string"""
         if ty in ('num', 'int', 'bool', 'str', 'any'):
             return self.sym_kind(ty, base)
+        if ty == 'dframe':
+            # a pandas DataFrame: an opaque id with df_rows / df_cols (assumed contracts in contracts/deps.py)
+            f = Sym('dframe', z3.Int(fresh_name(base)))
+            self.st.assume(z3.And(z3.Function('df_rows', I, I)(f.t) >= 0, z3.Function('df_cols', I, I)(f.t) >= 0))
+            return f
         if ty.startswith('enum:'):
             return self.fresh_enum(ty[5:], base)
         if ty.startswith('list:') or ty.startswith('set:'):
